@@ -20,6 +20,7 @@ class Facts:
                      ('restore_adt_names', lambda x: inline.restore_adt_names(x, kadts), 'renamed'),
                      ('inline_new_helpers', lambda x: inline.inline_new_helpers(x, known), 'inlined'),
                      ('normalise_mem_ops', inline.normalise_mem_ops, 'renamed'),
+                     ('dissolve_caches', lambda x: __import__('caches').dissolve_caches(x, kadts), 'renamed'),
                      ('normalise_option_filter', inline.normalise_option_filter, 'renamed'),
                      ('normalise_internal_iteration', inline.normalise_internal_iteration, 'renamed'),
                      ('inline_closure_calls', lambda x: inline.inline_closure_calls(x) if self.inlined else [], 'renamed'),
